@@ -64,6 +64,14 @@ Theorem C06_single_call_no_cycle : forall (E : list edge) (n : nat) (g : list na
 Proof. exact GraphProofs.single_call_no_cycle. Qed.
 Print Assumptions C06_single_call_no_cycle.
 
+(* the one cycle the size test does not see: a component that consumes its own output forms a group of one, which the code
+   evaluates by a single call (System.predict then stops with "Missing input variable": nothing is returned, nothing is iterated) *)
+Theorem C06_self_feedback_is_a_single_call :
+  exists (cs : list cio) (g : list nat) (a : nat),
+    In g (system_sccs cs) /\ In a g /\ is_loop g = false /\ path1 (edges cs) a a.
+Proof. exact GraphProofs.self_feedback_is_a_single_call. Qed.
+Print Assumptions C06_self_feedback_is_a_single_call.
+
 (* a plan for a system without cycles, flattened, is accepted by the order test of Model/Sys.v exactly as C07 uses it:
    here stated on the graph: no edge points backwards or stays inside a group *)
 Theorem C07_acyclic_plan_is_topological : forall (E : list edge) (n : nat) (plan : list (list nat)), edges_within E n ->
